@@ -337,4 +337,58 @@ theorem soft_threshold_zero (tmp thr den : α) (h : |tmp| ≤ thr) : softThresho
   rw [maxS_eq, absS_eq, max_eq_right (by linarith)]
   simp
 
+/-! ### centred designs -/
+
+theorem sum_zipWith_add (a b : List α) (h : a.length = b.length) :
+    (List.zipWith (· + ·) a b).sum = a.sum + b.sum := by
+  induction a generalizing b with
+  | nil => cases b with
+    | nil => simp
+    | cons _ _ => simp at h
+  | cons x xs ih => cases b with
+    | nil => simp at h
+    | cons y ys =>
+      simp only [List.zipWith_cons_cons, List.sum_cons]
+      rw [ih ys (by simpa using h)]; ring
+
+theorem sum_map_mul (k : α) (a : List α) : (a.map (k * ·)).sum = k * a.sum := by
+  induction a with
+  | nil => simp
+  | cons x xs ih => simp only [List.map_cons, List.sum_cons, ih]; ring
+
+theorem sum_matVec_centred (n : Nat) (C : List (List α)) (w : List α) (hC : ∀ c ∈ C, c.length = n)
+    (hcen : ∀ c ∈ C, c.sum = 0) : (matVec n C w).sum = 0 := by
+  induction C generalizing w with
+  | nil => simp [matVec]
+  | cons c C ih => cases w with
+    | nil => simp [matVec]
+    | cons wj w =>
+      have hC' : ∀ c' ∈ C, c'.length = n := fun c' h => hC c' (List.mem_cons_of_mem _ h)
+      simp only [matVec]
+      rw [sum_zipWith_add _ _ (by rw [matVec_length n C w hC', List.length_map, hC c List.mem_cons_self]),
+        sum_map_mul, hcen c List.mem_cons_self, ih w hC' (fun c' h => hcen c' (List.mem_cons_of_mem _ h))]
+      ring
+
+theorem sum_residual (b : α) (y a : List α) (h : y.length = a.length) :
+    (List.zipWith (fun yi xi => yi - xi - b) y a).sum = y.sum - a.sum - (y.length : α) * b := by
+  induction y generalizing a with
+  | nil => cases a with
+    | nil => simp
+    | cons _ _ => simp at h
+  | cons p ps ih => cases a with
+    | nil => simp at h
+    | cons q qs =>
+      simp only [List.zipWith_cons_cons, List.sum_cons, List.length_cons, Nat.cast_succ]
+      rw [ih qs (by simpa using h)]; ring
+
+theorem sum_map_sub (y : List α) (m : α) : (y.map (· - m)).sum = y.sum - (y.length : α) * m := by
+  induction y with
+  | nil => simp
+  | cons p ps ih => simp only [List.map_cons, List.sum_cons, List.length_cons, Nat.cast_succ, ih]; ring
+
+theorem residual_centre (C : List (List α)) (y w : List α) (m b : α) :
+    residual C y w b = (residual C (y.map (· - m)) w 0).map (· - (b - m)) := by
+  simp only [residual, List.length_map, List.map_zipWith, List.zipWith_map_left]
+  congr 1; funext yi xi; ring
+
 end LinfaSpec.LeastSquares
